@@ -12,6 +12,10 @@ from rv import gen, harness, monitors, refsem, vloop
 
 def ctl_from(spec, prog=None):
     spec = dict(spec or {})
+    dfs_prefix = spec.pop('dfs_prefix', None)
+    if spec.get('mode') == 'dfs':
+        spec['eager'] = 0.0
+        spec['batch'] = 1
     starve = spec.pop('starve', None)
     hold = spec.pop('hold', None)
     cancel_at = spec.pop('cancel_at', None)
@@ -31,7 +35,9 @@ def ctl_from(spec, prog=None):
     script = spec.pop('script', None)
     if script is not None:
         script = {int(s): [tuple(a) if isinstance(a, list) else a for a in acts] for s, acts in script}
-    return vloop.Controller(starve=fn, cancel_at=cancel_at, script=script, **spec)
+    ctl = vloop.Controller(starve=fn, cancel_at=cancel_at, script=script, **spec)
+    ctl.dfs_prefix = dfs_prefix
+    return ctl
 
 
 def snapshot_dag(dag):
@@ -69,8 +75,11 @@ def run_case(case, built=None, keep_obs=False):
     shape = case.get('shape', 'single')
     runs = [tuple(r) for r in case['runs']]
     snap_before = snapshot_dag(built.dag) if shape == 'seq' or case.get('snapshot') else None
+    outputs = case.get('outputs') or [None] * len(runs)
+    charts = [built.chart_for(o, events=case.get('events', True), store=case.get('store', False)) if o else None
+              for o in outputs]
     obs = harness.execute(
-        built, runs, ctl,
+        built, runs, ctl, charts=charts,
         gate_events=case.get('gate_events', 0.0), gate_saves=case.get('gate_saves', 0.0),
         write_once=case.get('write_once', True),
         collab_faults={(c, k): True for c, k in case.get('collab_faults', [])},
@@ -88,9 +97,14 @@ def run_case(case, built=None, keep_obs=False):
              'cancel_delivered': 0, 'trace_len': len(obs.trace)}
     cancelled = obs.cancelled_steps
     stats['dup_request'] = harness.COUNTERS.get('dup_request', 0)
+    if ctl.mode == 'dfs':
+        stats['dfs_record'] = list(ctl.dfs_record)
     stats['cancel_inflight'] = sum(1 for g, t in ctl.cancel_info.values() if g > 0 or t > 0)
     faults = bool(case.get('collab_faults'))
+    prog0 = prog
     for i, ro in enumerate(obs.runs):
+        prog = prog0 if not outputs[i] else dict(prog0, output=outputs[i])
+        guards = monitors.lazy_guards(prog) if outputs[i] else guards
         ref = refsem.evaluate(prog, ro.tag, ro.val)
         refs[ro.tag] = ref
         was_cancelled = i in cancelled if shape != 'seq' else (0 in cancelled)
@@ -143,6 +157,7 @@ def run_case(case, built=None, keep_obs=False):
                 f['prop'] = sorted(set(f['prop']) | extra)
     if faults:
         dyn |= gen.pessimistic_tags(prog)
+    prog = prog0
     stats['invocations'] = sum(1 for r in obs.trace if r['k'] == 'body_start')
     if obs.pending_tasks_after_drain and not obs.verdict:
         findings.append(monitors.F(['C13'], 'tasks_pending_after_drain', n=obs.pending_tasks_after_drain,
@@ -160,6 +175,31 @@ def run_case(case, built=None, keep_obs=False):
     if own:
         built.close()
     return res
+
+
+def explore_orders(case, built, limit=200):
+    """Systematic exploration of completion orders: depth-first over the choice made at every quiescent point
+    (one completion or timer per point, no eager delivery).  Yields (case, result); the last yielded result has
+    res['dfs_exhausted'] = True iff every order was visited within `limit` runs."""
+    prefix = []
+    n = 0
+    while True:
+        c = dict(case)
+        c['ctl'] = {'seed': 0, 'mode': 'dfs', 'dfs_prefix': list(prefix)}
+        c['gate_events'] = 0.0
+        res = run_case(c, built, keep_obs=False)
+        n += 1
+        rec = res['stats'].get('dfs_record', [])
+        # next prefix: backtrack to the last point with an untried option
+        j = len(rec) - 1
+        while j >= 0 and rec[j][0] + 1 >= rec[j][1]:
+            j -= 1
+        done = j < 0
+        res['dfs_exhausted'] = done
+        yield c, res
+        if done or n >= limit:
+            return
+        prefix = [r[0] for r in rec[:j]] + [rec[j][0] + 1]
 
 
 def sample_of(case, res):
